@@ -277,6 +277,51 @@ Theorem c08_monitor_verify_exact :
 Proof. exact monitor7_accepts_ideal_l. Qed.
 Print Assumptions c08_monitor_verify_exact.
 
+(* ---- round 3: private keys ------------------------------------------------------------------ *)
+(* the marshalled form of a private key determines its type and its (secret, public) data *)
+Theorem c08_privkey_marshal_injective : forall kt d kt' d',
+  kt < 2 ^ 32 -> kt' < 2 ^ 32 -> nlen d < 2 ^ 64 -> nlen d' < 2 ^ 64 ->
+  marshal_privkey kt d = marshal_privkey kt' d' -> kt = kt' /\ d = d'.
+Proof. exact privkey_marshal_injective_l. Qed.
+Print Assumptions c08_privkey_marshal_injective.
+
+Theorem c08_privkey_proto_roundtrip : forall kt d, kt < 2 ^ 32 -> nlen d < 2 ^ 64 ->
+  parse_privkey (marshal_privkey kt d) = Some (kt, d).
+Proof. exact privkey_proto_roundtrip_l. Qed.
+Print Assumptions c08_privkey_proto_roundtrip.
+
+(* Ed25519: Raw() = seed ++ public half reads back as exactly those halves, is injective, and
+   Equals is equality of (secret, public) - so a key reported equal has the same encoding *)
+Theorem c08_ed25519_priv_roundtrip : forall seed pub, length seed = 32%nat -> length pub = 32%nat ->
+  ed25519_priv_parts (ed25519_priv_raw seed pub) = Some (seed, pub).
+Proof. exact ed25519_priv_parts_raw. Qed.
+Print Assumptions c08_ed25519_priv_roundtrip.
+
+Theorem c08_ed25519_priv_raw_injective : forall s p s' p',
+  length s = 32%nat -> length p = 32%nat -> length s' = 32%nat -> length p' = 32%nat ->
+  ed25519_priv_raw s p = ed25519_priv_raw s' p' -> s = s' /\ p = p'.
+Proof. exact ed25519_priv_raw_injective. Qed.
+Print Assumptions c08_ed25519_priv_raw_injective.
+
+Theorem c08_ed25519_priv_equal_is_identity : forall a b, ed25519_priv_equal a b = true <-> a = b.
+Proof. exact ed25519_priv_equal_iff. Qed.
+Print Assumptions c08_ed25519_priv_equal_is_identity.
+
+(* FINDING (known_findings/C08.json).  Full statement: ed25519_priv_consistent derive - every
+   accepted Ed25519 private key has the public half of its seed.  UnmarshalEd25519PrivateKey
+   does not check it; the statement is refuted for every derive function, the witness (seed
+   0^32 with public half 0^32 or 1^32) replayed on the implementation is the finding.  The
+   _partial version is what the code does guarantee. *)
+Theorem c08_ed25519_priv_consistent_refuted : forall derive, ~ ed25519_priv_consistent derive.
+Proof. exact ed25519_priv_consistent_refuted_l. Qed.
+Print Assumptions c08_ed25519_priv_consistent_refuted.
+
+Theorem c08_ed25519_priv_consistent_partial : forall derive seed,
+  length seed = 32%nat -> length (derive seed) = 32%nat ->
+  ed25519_priv_parts (ed25519_priv_raw seed (derive seed)) = Some (seed, derive seed).
+Proof. exact ed25519_priv_consistent_partial_l. Qed.
+Print Assumptions c08_ed25519_priv_consistent_partial.
+
 (* ---- non-vacuity ------------------------------------------------------------------------------------ *)
 (* a toy ideal scheme: signature value [7] was issued by key 1 on
    makeUnsigned "d" [3;1] [5]; the envelope carrying it is accepted for domain
@@ -347,4 +392,19 @@ Example monitor_rejects_voucher_without_peer :
 Proof. vm_compute. reflexivity. Qed.
 Example monitor_accepts_full_voucher :
   monitor_case [17; 0; 0; 10; 10;2;0;0;18;2;0;0;24;5;  1; 2;0;0; 2;0;0; 0; 5]%Z = [].
+Proof. vm_compute. reflexivity. Qed.
+
+(* round 3: a key reported equal although it is not interchangeable with the original; an accepted private key that
+   does not sign for its own public key; a destination that keeps the previous record's addresses *)
+Example monitor_rejects_equal_but_different_secret :
+  monitor_case [19; 1; 2; 2;8;1; 2;8;2; 3; 1; 1; 0; 1; 0]%Z = [ERR_PROPERTY; 191]%Z.
+Proof. vm_compute. reflexivity. Qed.
+Example monitor_rejects_inconsistent_private_key :
+  monitor_case [19; 1; 3; 2;8;1; 2;8;2; 3; 0; 0; 0; 0; 0]%Z = [ERR_PROPERTY; 192]%Z.
+Proof. vm_compute. reflexivity. Qed.
+Example monitor_accepts_private_roundtrip :
+  monitor_case [19; 1; 0; 2;8;1; 2;8;1; 3; 1; 1; 1; 1; 1]%Z = [].
+Proof. vm_compute. reflexivity. Qed.
+Example monitor_rejects_stale_addresses :
+  monitor_case [15; 4; 0; 1;5; 0; 1;5; 2;0;7; 1; 1;5; 3;0;7;9; 0; 0; 0; 0]%Z = [ERR_PROPERTY; 151]%Z.
 Proof. vm_compute. reflexivity. Qed.
